@@ -529,7 +529,7 @@ class Polyhedron(Shape3D):
         if centered:
             simplices -= self.center
 
-        volumes = np.abs(np.linalg.det(simplices) / 6)
+        volumes = np.linalg.det(simplices) / 6
 
         def triangle_integrate(f):
             r"""Integrate f over the simplices.
